@@ -34,7 +34,7 @@ var (
 )
 
 func pkcs1Key(bits, e int, id uint32, params *rsassapkcs1.Parameters, m Material) (key.Key, error) {
-	rk, err := RSA(bits, e)
+	rk, err := rsaFor(bits, e, m)
 	if err != nil {
 		return nil, err
 	}
@@ -47,7 +47,7 @@ func pkcs1Key(bits, e int, id uint32, params *rsassapkcs1.Parameters, m Material
 }
 
 func pssKey(bits, e int, id uint32, params *rsassapss.Parameters, m Material) (key.Key, error) {
-	rk, err := RSA(bits, e)
+	rk, err := rsaFor(bits, e, m)
 	if err != nil {
 		return nil, err
 	}
@@ -131,7 +131,7 @@ func init() {
 			if err := noZeroRSA(m); err != nil {
 				return nil, err
 			}
-			rk, err := RSA(p.Int("modulusBits"), p.Int("exponent"))
+			rk, err := rsaFor(p.Int("modulusBits"), p.Int("exponent"), m)
 			if err != nil {
 				return nil, err
 			}
@@ -153,7 +153,7 @@ func init() {
 			if err := noZeroRSA(m); err != nil {
 				return nil, err
 			}
-			rk, err := RSA(p.Int("modulusBits"), p.Int("exponent"))
+			rk, err := rsaFor(p.Int("modulusBits"), p.Int("exponent"), m)
 			if err != nil {
 				return nil, err
 			}
